@@ -222,6 +222,30 @@ def unpack(chk):
     rets = [n for n in walk_no_nested(fn) if isinstance(n, ast.Return)]
     if len(rets) == 1 and isinstance(rets[0].value, ast.Name):
         wname = rets[0].value.id
+    # post-increment form of the particle branch: `row = w; w += 1; <stores at row>` is `<stores at w>; w += 1` (row holds the old w, nothing
+    # else in the branch reads or writes w or binds row)
+    if wname is not None:
+        br = H.orelse
+        for k_ in range(len(br) - 1):
+            a_, b_ = br[k_], br[k_ + 1]
+            if isinstance(a_, ast.Assign) and len(a_.targets) == 1 and isinstance(a_.targets[0], ast.Name) and isinstance(a_.value, ast.Name) and a_.value.id == wname \
+                    and isinstance(b_, ast.AugAssign) and isinstance(b_.target, ast.Name) and b_.target.id == wname and isinstance(b_.op, ast.Add) and unparse(b_.value) == '1':
+                rname = a_.targets[0].id
+                rest = br[k_ + 2:]
+                touched = any(isinstance(n_, ast.Name) and n_.id == wname for st_ in rest for n_ in ast.walk(st_))
+                rstores = sum(1 for n_ in walk_no_nested(lp) if isinstance(n_, ast.Name) and n_.id == rname and isinstance(n_.ctx, ast.Store))
+                wstores = sum(1 for st_ in br for n_ in ast.walk(st_) if isinstance(n_, ast.Name) and n_.id == wname and isinstance(n_.ctx, ast.Store))
+                if not touched and rstores == 1 and wstores == 1 and rname != wname:
+                    class SubR(ast.NodeTransformer):
+                        def visit_Name(s_, n_):
+                            return ast.copy_location(ast.Name(id=wname, ctx=n_.ctx), n_) if n_.id == rname else n_
+                    H.orelse = br[:k_] + [SubR().visit(st_) for st_ in rest] + [b_]
+                    for st_ in H.orelse:
+                        st_._parent = H
+                        for n_ in ast.walk(st_):
+                            for c_ in ast.iter_child_nodes(n_):
+                                c_._parent = n_
+                break
     alt = _header_counter_form(fn, lp, H, iv, data, outs)
     if alt is not None:
         ok_alt, why_alt, hname = alt
